@@ -640,7 +640,8 @@ fn cmd_strategy(args: &[String]) {
 enum Req {
     Add(usize),    // name index
     Remove(usize), // datum id (may be unknown)
-    Close,
+    Close,         // generic append_data
+    CloseRev,      // generic append_data_reverse
 }
 
 const NAMES: [&str; 3] = ["a", "b", "c"];
@@ -662,7 +663,7 @@ impl Model {
 }
 
 fn run_history(h: &[Req], verbose: bool) -> Vec<String> {
-    use truc::record::definition::builder::generic::variant::append_data as g_append;
+    use truc::record::definition::builder::generic::variant::{append_data as g_append, append_data_reverse as g_append_rev};
     use truc::record::definition::RecordVariantId;
     let mut b = GenericRecordDefinitionBuilder::<()>::new();
     let mut m = Model::default();
@@ -696,11 +697,13 @@ fn run_history(h: &[Req], verbose: bool) -> Vec<String> {
                     if in_last { m.to_remove.push(*id); } else { m.to_add.retain(|d| d != id); }
                 }
             }
-            Req::Close => {
+            Req::Close | Req::CloseRev => {
+                let rev = *r == Req::CloseRev;
                 let pending = m.variants.is_empty() || !m.to_add.is_empty() || !m.to_remove.is_empty();
-                let res = b.close_record_variant_with(g_append);
-                if verbose { println!("  close -> variant {}", res); }
+                let res = if rev { b.close_record_variant_with(g_append_rev) } else { b.close_record_variant_with(g_append) };
+                if verbose { println!("  close ({}) -> variant {}", if rev { "append_data_reverse" } else { "append_data" }, res); }
                 if pending {
+                    if rev { m.to_add.reverse(); }
                     let cur = m.current();
                     m.variants.push(cur);
                     m.to_add.clear();
@@ -748,11 +751,11 @@ fn run_history(h: &[Req], verbose: bool) -> Vec<String> {
 }
 
 fn req_to_json(r: &Req) -> Value {
-    match r { Req::Add(n) => json!({"add": NAMES[*n]}), Req::Remove(d) => json!({"remove": d}), Req::Close => json!("close") }
+    match r { Req::Add(n) => json!({"add": NAMES[*n]}), Req::Remove(d) => json!({"remove": d}), Req::Close => json!("close"), Req::CloseRev => json!("close_reverse") }
 }
 
 fn req_from_json(v: &Value) -> Req {
-    if v == "close" { Req::Close } else if let Some(n) = v.get("add") { Req::Add(NAMES.iter().position(|x| *x == n.as_str().unwrap()).unwrap()) } else { Req::Remove(v["remove"].as_u64().unwrap() as usize) }
+    if v == "close" { Req::Close } else if v == "close_reverse" { Req::CloseRev } else if let Some(n) = v.get("add") { Req::Add(NAMES.iter().position(|x| *x == n.as_str().unwrap()).unwrap()) } else { Req::Remove(v["remove"].as_u64().unwrap() as usize) }
 }
 
 fn cmd_builder_history(args: &[String]) {
@@ -766,7 +769,7 @@ fn cmd_builder_history(args: &[String]) {
         exit(if o.is_empty() { 0 } else { 1 });
     }
     let maxlen: usize = arg(args, "--max-len").map_or(6, |s| s.parse().unwrap());
-    let mut alphabet = vec![Req::Close];
+    let mut alphabet = vec![Req::Close, Req::CloseRev];
     for n in 0..NAMES.len() { alphabet.push(Req::Add(n)); }
     for d in 0..4 { alphabet.push(Req::Remove(d)); }
     let mut best: Option<(Vec<Req>, Vec<String>)> = None;
